@@ -47,6 +47,7 @@ struct ErrInfo {
     std::size_t attempts = 0, buckets = 0;
     int handler_calls = 0;
     int via_call_error = 0;
+    int handler_uid = -1; // which policy's harness handler received it
 };
 
 struct CallArg {
@@ -143,6 +144,7 @@ struct PolicyOps {
     std::string name;
     Caps caps;
     int nslots = 0;
+    int uid = -1; // position in all_policies()
 
     virtual ~PolicyOps() = default;
 
